@@ -210,6 +210,26 @@ func (b *readBuffer) string(n int) string {
 	return string(str)
 }
 
+// fitsUint8 ensures every length can be written into a one byte length field
+func fitsUint8(lengths ...int) error {
+	for _, n := range lengths {
+		if n > 0xff {
+			return fmt.Errorf("length [%v] does not fit a one byte length field", n)
+		}
+	}
+	return nil
+}
+
+// fitsUint16 ensures every length can be written into a two byte length field
+func fitsUint16(lengths ...int) error {
+	for _, n := range lengths {
+		if n > 0xffff {
+			return fmt.Errorf("length [%v] does not fit a two byte length field", n)
+		}
+	}
+	return nil
+}
+
 // appendUint16 will append an int to a []byte as a uint16 but shifting bits
 func appendUint16(b []byte, i int) []byte {
 	return append(b, byte(i>>8), byte(i))
